@@ -2,7 +2,11 @@ package pkg
 
 import (
 	"fmt"
+	"os"
+	"sort"
 	"strings"
+
+	"github.com/pkg/errors"
 )
 
 type Kind int
@@ -244,4 +248,52 @@ func badDefer(a int) int {
 
 func badConstOverflow(b byte) bool {
 	return b == 300
+}
+
+// ---- state transformers, struct slices, closures
+
+type ent struct {
+	key string
+	n   int
+}
+
+type tab struct {
+	ents []ent
+	hits int
+}
+
+func (t *tab) okPut(key string, fi os.FileInfo) error {
+	if t.ents == nil {
+		t.ents = make([]ent, 1, 4)
+	}
+	i := sort.Search(len(t.ents), func(i int) bool {
+		return t.ents[i].key >= key
+	})
+	if i < len(t.ents) && t.ents[i].key == key {
+		t.ents[i].n = t.ents[i].n + 1
+		t.hits++
+		return nil
+	}
+	if fi.IsDir() {
+		return errors.Errorf("dir %q", key)
+	}
+	t.ents = append(t.ents[:i], ent{key: key})
+	return nil
+}
+
+func (t *tab) badClosureWrites(key string) int {
+	n := 0
+	i := sort.Search(len(t.ents), func(i int) bool {
+		n++
+		return t.ents[i].key >= key
+	})
+	return i + n
+}
+
+func (t *tab) badLoopOnState() int {
+	n := 0
+	for i := 0; i < len(t.ents); i++ {
+		n += t.ents[i].n
+	}
+	return n
 }
